@@ -104,3 +104,136 @@ func VerifC05NoDecs() {
 	vfAssert(vfCap2(got) == vfIte(sa >= sb, sa, sb), "non-additive-max")
 	vfAssert((vfCap2(got) == 2) == vfOr(sa == 2, sb == 2), "blank-line-iff-emptyline")
 }
+
+// vfLastTokenEnd / vfFirstTokenPos: extent of a restored node according to the real fragmenter.
+func vfLastTokenEnd(an ast.Node, def token.Pos) token.Pos {
+	end := def
+	for _, f := range vfFragments(an) {
+		if pos, l, ok := vfFragExtent(f); ok {
+			end = pos + token.Pos(l)
+		}
+	}
+	return end
+}
+
+func vfFirstTokenPos(an ast.Node, def token.Pos) token.Pos {
+	for _, f := range vfFragments(an) {
+		if pos, _, ok := vfFragExtent(f); ok {
+			return pos
+		}
+	}
+	return def
+}
+
+// vfC05Siblings: two adjacent siblings a, b (real nodes restored by the real restoreNode, so that each
+// node type's own generated Before/Start/.../End/After sequence is what is checked): a carries forked
+// End decorations and After=sa, b carries forked Start decorations and Before=sb.
+func vfC05Siblings(r *FileRestorer, a, b dst.Node, kA, kB []int, sa, sb int, bad bool) {
+	fresh0 := r.cursor == r.cursorAtNewLine
+	mark := len(r.lines)
+	c0 := len(r.comments)
+	cursor0 := r.cursor
+	anA := r.restoreNode(a, "", "", "", false)
+	cA := len(r.comments)
+	anB := r.restoreNode(b, "", "", "", false)
+	vfReach("rendered")
+	prevEnd := vfLastTokenEnd(anA, cursor0)
+	tokB := vfFirstTokenPos(anB, r.cursor)
+	_ = cA
+	// a has no Start decorations and Before=None, so freshness at its last token is: fresh0 if it has
+	// no tokens at all, else false
+	fresh := vfAnd(fresh0, prevEnd == cursor0)
+	if bad {
+		sa = 2
+	}
+	exp := 0
+	ci := c0
+	item := func(k int) {
+		vfAssert(ci < len(r.comments), "comment-rendered")
+		if ci >= len(r.comments) {
+			return
+		}
+		c := r.comments[ci].List[0]
+		ci++
+		got := vfBreaks(r, mark, prevEnd, c.Slash)
+		vfAssert(vfCap2(got) == vfCap2(exp), "C05-rule/comment")
+		prevEnd = c.Slash + token.Pos(len(c.Text))
+		if k == vfKindLine {
+			exp = 1
+			fresh = true
+		} else {
+			exp = 0
+			fresh = false
+		}
+	}
+	for _, k := range kA {
+		if k == vfKindNewline {
+			exp++
+			fresh = true
+		} else {
+			item(k)
+		}
+	}
+	exp += vfIte(fresh, vfMax0(sa-1), sa)
+	fresh = vfOr(fresh, sa > 0)
+	exp += vfIte(fresh, vfMax0(sb-1), sb)
+	for _, k := range kB {
+		if k == vfKindNewline {
+			exp++
+		} else {
+			item(k)
+		}
+	}
+	got := vfBreaks(r, mark, prevEnd, tokB)
+	vfAssert(vfCap2(got) == vfCap2(exp), "C05-rule/token")
+}
+
+func vfKindsOf(d dst.Decorations) []int {
+	var ks []int
+	for _, s := range d {
+		switch {
+		case s == "\n":
+			ks = append(ks, vfKindNewline)
+		case len(s) >= 2 && s[:2] == "//":
+			ks = append(ks, vfKindLine)
+		default:
+			ks = append(ks, vfKindBlock)
+		}
+	}
+	return ks
+}
+
+// C05 per node type: the documented sibling rule holds for the generated restore sequence of every
+// node type (Before first, then Start decorations ... End decorations, After last).
+func vfPerType_C05(typ string) {
+	ga := &vfGen{prefix: "a", depth: 1, listLen: 1, maxDecs: 1, decPoint: typ + ".End"}
+	gb := &vfGen{prefix: "b", depth: 1, listLen: 1, maxDecs: 1, decPoint: typ + ".Start"}
+	a := ga.Node(typ)
+	b := gb.Node(typ)
+	sa := vfInt("sa", 0, 2)
+	sb := vfInt("sb", 0, 2)
+	a.Decorations().After = dst.SpaceType(sa)
+	b.Decorations().Before = dst.SpaceType(sb)
+	r := vfRestorerMid()
+	bad := typ == "BadDecl" || typ == "BadExpr" || typ == "BadStmt"
+	vfC05Siblings(r, a, b, vfKindsOf(a.Decorations().End), vfKindsOf(b.Decorations().Start), sa, sb, bad)
+}
+
+// VerifC05Qualified: the same rule for package-qualified identifiers, which an import-managing
+// restorer renders through its own special-case code (selector expansion).
+func VerifC05Qualified() {
+	r := vfRestorerMid()
+	calls := 0
+	r.Resolver, r.Path = vfResolver{names: map[string]string{"a": "a"}, failAt: -1, calls: &calls}, vfLocal
+	r.packageNames["a"] = vfBytes("pkgname", 1, "ab")
+	a := &dst.Ident{Name: vfOpaque("a", "A"), Path: "a"}
+	b := &dst.Ident{Name: vfOpaque("b", "B"), Path: "a"}
+	var kA, kB []int
+	a.Decs.End, kA = vfDecorations("dA", 1)
+	b.Decs.Start, kB = vfDecorations("dB", 1)
+	sa := vfInt("sa", 0, 2)
+	sb := vfInt("sb", 0, 2)
+	a.Decs.After = dst.SpaceType(sa)
+	b.Decs.Before = dst.SpaceType(sb)
+	vfC05Siblings(r, a, b, kA, kB, sa, sb, false)
+}
